@@ -1,0 +1,63 @@
+//go:build verif
+
+package dnsutils
+
+// Contracts for the deductive checker in /verif (comment-only file, no declarations).
+
+//@ spec func hdrOf(r dnsmsg.Resource) *dnsmsg.ResourceHdr = ptrOf(r, dnsmsg.ResourceHdr)
+//@ spec func ttlBound(rs []dnsmsg.Resource, t uint32) bool = forall(k, 0, len(rs), hdrOf(rs[k]).Type != dnsmsg.TypeOPT ==> t <= hdrOf(rs[k]).TTL)
+//@ spec func ttlWitness(rs []dnsmsg.Resource, t uint32) bool = exists(k, 0, len(rs), hdrOf(rs[k]).Type != dnsmsg.TypeOPT && hdrOf(rs[k]).TTL == t)
+//@ spec func onlyOPT(rs []dnsmsg.Resource) bool = forall(k, 0, len(rs), hdrOf(rs[k]).Type == dnsmsg.TypeOPT)
+//@ spec func secN(m *dnsmsg.Msg, o int) []dnsmsg.Resource = (o == 0 ? m.Answers : (o == 1 ? m.Authorities : m.Additionals))
+
+// GetMinimalTTL: ok iff some record other than OPT exists; then the result is a lower bound of
+// every such record's TTL in all three sections.
+//@ func GetMinimalTTL(m *dnsmsg.Msg) (t uint32, ok bool)
+//@   props C08
+//@   requires m != nil && wfMsg(m)
+//@   modifies nothing
+//@   ensures [C08:min-is-lower-bound] ok ==> ttlBound(m.Answers, t) && ttlBound(m.Authorities, t) && ttlBound(m.Additionals, t)
+//@   ensures [C08:no-record] !ok ==> onlyOPT(m.Answers) && onlyOPT(m.Authorities) && onlyOPT(m.Additionals) && t == 0
+//@   loop 1:
+//@     invariant -1 <= rangeindex && rangeindex <= 2
+//@     invariant hasRecord ==> (rangeindex >= 0 ==> ttlBound(m.Answers, minTTL)) && (rangeindex >= 1 ==> ttlBound(m.Authorities, minTTL)) && (rangeindex >= 2 ==> ttlBound(m.Additionals, minTTL))
+//@     invariant !hasRecord ==> minTTL == 0xffffffff && (rangeindex >= 0 ==> onlyOPT(m.Answers)) && (rangeindex >= 1 ==> onlyOPT(m.Authorities)) && (rangeindex >= 2 ==> onlyOPT(m.Additionals))
+//@   loop 2:
+//@     invariant 0 <= rangeindex && rangeindex <= 2 && sameSlice(rs, secN(m, rangeindex), 0, len(rs))
+//@     invariant hasRecord ==> (rangeindex >= 1 ==> ttlBound(m.Answers, minTTL)) && (rangeindex >= 2 ==> ttlBound(m.Authorities, minTTL))
+//@             && forall(k, 0, rangeindex_2 + 1, hdrOf(rs[k]).Type != dnsmsg.TypeOPT ==> minTTL <= hdrOf(rs[k]).TTL)
+//@     invariant !hasRecord ==> minTTL == 0xffffffff && (rangeindex >= 1 ==> onlyOPT(m.Answers)) && (rangeindex >= 2 ==> onlyOPT(m.Authorities))
+//@             && forall(k, 0, rangeindex_2 + 1, hdrOf(rs[k]).Type == dnsmsg.TypeOPT)
+
+//@ spec func aged(t uint32, d uint32) uint32 = (t > d ? t - d : 1)
+//@ spec func agedRec(h *dnsmsg.ResourceHdr, d uint32) bool = (h.Type == dnsmsg.TypeOPT ? h.TTL == old(h.TTL) : h.TTL == aged(old(h.TTL), d))
+//@ spec func sameRec(h *dnsmsg.ResourceHdr) bool = h.TTL == old(h.TTL)
+//@ spec func distinctIn(a []dnsmsg.Resource) bool = forall(j, 0, len(a), forall(k, 0, len(a), j != k ==> !sameObj(a[j], a[k])))
+//@ spec func distinctX(a []dnsmsg.Resource, b []dnsmsg.Resource) bool = forall(j, 0, len(a), forall(k, 0, len(b), !sameObj(a[j], b[k])))
+// every record object occurs once in the message (what UnpackMsg produces)
+//@ spec func distinctRecs(m *dnsmsg.Msg) bool = distinctIn(m.Answers) && distinctIn(m.Authorities) && distinctIn(m.Additionals)
+//@        && distinctX(m.Answers, m.Authorities) && distinctX(m.Answers, m.Additionals) && distinctX(m.Authorities, m.Additionals)
+//@ spec func allAged(rs []dnsmsg.Resource, d uint32) bool = forall(k, 0, len(rs), agedRec(hdrOf(rs[k]), d))
+//@ spec func allSame(rs []dnsmsg.Resource) bool = forall(k, 0, len(rs), sameRec(hdrOf(rs[k])))
+
+// SubtractTTL: every record other than OPT gets max(TTL-delta, 1) (TTL <= delta gives 1), OPT is untouched,
+// nothing but TTL fields changes.
+//@ func SubtractTTL(m *dnsmsg.Msg, delta uint32)
+//@   props C08
+//@   requires m != nil && wfMsg(m) && distinctRecs(m)
+//@   modifies field(dnsmsg.ResourceHdr.TTL)
+//@   ensures [C08:aged] allAged(m.Answers, delta) && allAged(m.Authorities, delta) && allAged(m.Additionals, delta)
+//@   loop 1:
+//@     modifies field(dnsmsg.ResourceHdr.TTL)
+//@     invariant -1 <= rangeindex && rangeindex <= 2
+//@     invariant (rangeindex >= 0 ? allAged(m.Answers, delta) : allSame(m.Answers))
+//@     invariant (rangeindex >= 1 ? allAged(m.Authorities, delta) : allSame(m.Authorities))
+//@     invariant (rangeindex >= 2 ? allAged(m.Additionals, delta) : allSame(m.Additionals))
+//@   loop 2:
+//@     modifies field(dnsmsg.ResourceHdr.TTL)
+//@     invariant 0 <= rangeindex && rangeindex <= 2 && sameSlice(rs, secN(m, rangeindex), 0, len(rs))
+//@     invariant (rangeindex >= 1 ? allAged(m.Answers, delta) : (rangeindex == 0 ? true : allSame(m.Answers)))
+//@     invariant (rangeindex >= 2 ? allAged(m.Authorities, delta) : (rangeindex == 1 ? true : allSame(m.Authorities)))
+//@     invariant (rangeindex == 2 ? true : allSame(m.Additionals))
+//@     invariant forall(k, 0, rangeindex_2 + 1, agedRec(hdrOf(rs[k]), delta))
+//@     invariant forall(k, rangeindex_2 + 1, len(rs), sameRec(hdrOf(rs[k])))
